@@ -160,9 +160,11 @@ type client struct {
 	stopped     bool
 	stream      *media.Stream // the stream it attached to
 	noCountWait bool          // a further member of a running multicast proxy adds no consumer to the stream
-	faulty      bool          // fault injection (C03 adapter-faults): the client drops its connection ...
-	abortAfter  int           // ... after this many handshake requests have been answered
-	genEnd      int           // packets published when its stream was replaced (-1: still current)
+	listedID    uint32        // the id Stream.Info(true) lists for this client's consumer
+	listed      bool
+	faulty      bool // fault injection (C03 adapter-faults): the client drops its connection ...
+	abortAfter  int  // ... after this many handshake requests have been answered
+	genEnd      int  // packets published when its stream was replaced (-1: still current)
 	nonce       []byte
 	attached    bool
 }
@@ -669,6 +671,24 @@ func publishViaSession() (net.Conn, error) {
 	return nc, nil
 }
 
+func listedIDs(st *media.Stream) map[uint32]bool {
+	m := map[uint32]bool{}
+	for _, ci := range st.Info(true).Consumptions {
+		m[ci.ID] = true
+	}
+	return m
+}
+
+// the id that the consumer list shows now and did not show before
+func newListedID(st *media.Stream, before map[uint32]bool) (uint32, bool) {
+	for _, ci := range st.Info(true).Consumptions {
+		if !before[ci.ID] {
+			return ci.ID, true
+		}
+	}
+	return 0, false
+}
+
 // ---------------------------------------------------------------- one case
 // case = (refs packets clients events how)
 //
@@ -813,10 +833,12 @@ func Run(c Val) Val {
 			if cl.kind == 6 && mcastActive(clients) > 0 {
 				cl.noCountWait = true // a further member of the running multicast proxy adds no consumer to the stream
 			}
+			listedBefore := listedIDs(stream)
 			if err := cl.attach(stream); err != nil {
 				return L(S("!setup"), S(err.Error()))
 			}
 			cl.attached = true
+			cl.listedID, cl.listed = newListedID(stream, listedBefore)
 			if cl.noCountWait {
 				if ma := stream.Multicastable(); ma != nil {
 					waitUntil(time.Second, func() bool { m, _, _, _ := rtsp.VerifMulticastState(ma); return m == mcastActive(clients) })
@@ -833,7 +855,16 @@ func Run(c Val) Val {
 			cl := clients[i]
 			drained(3 * time.Second)
 			before := cl.stream.ConsumerCount()
-			cl.stop(e.At(2).Int())
+			if e.At(2).Int() == 2 {
+				// administrative stop: StopConsume with exactly the id the server lists for this consumer
+				// (Stream.Info(true): what the runtime API shows and service.onStopConsumer parses)
+				cl.stopped = true
+				if cl.listed {
+					cl.stream.StopConsume(media.CID(cl.listedID))
+				}
+			} else {
+				cl.stop(e.At(2).Int())
+			}
 			if cl.ref != nil {
 				cl.stream.StopConsume(cl.refCID)
 				before--
